@@ -409,8 +409,6 @@ class C12(F.PropCheck):
                         if not (okh or okt):
                             why = ('toggle chain only through 32-bit wrap of the gaps [u32-wrap]' if wrapped else
                                    'no configuration button held for %d ms and no ten quick toggles' % k['PRESS_TIME_MS'])
-                            if not wrapped and (boot32 + tt) >= M32 and any(toggle_capable(x) for x in b.inputs) and any(len(c) >= NT - 1 for c in changes):
-                                why += ' [u32-wrap]'
                     else: why = 'event %s' % kd
                     if why: v.append('configuration mode started at t=%d us by event #%d (%s): %s' % (tt, n, kd, why))
                     cfgmode = True; srpc = False; reg = False
